@@ -118,8 +118,9 @@ struct RefEnv {
 
 static ld pert(RefEnv &env, ld v)
 {
-    if (std::isnan(v) || std::isinf(v))
-        env.bad = true; // a singular point of the reference: outside the accuracy oracle
+    if (std::isnan(v) || std::isinf(v) || fabsl(v) > 1.0e300L || (v != 0 && fabsl(v) < 1.0e-300L))
+        env.bad = true; // a singular point of the reference, or an intermediate value outside the range
+                        // of double (overflow / underflow): outside the accuracy oracle
     if (!env.perturb)
         return v;
     env.rng = env.rng * 6364136223846793005ULL + 1442695040888963407ULL;
@@ -259,12 +260,12 @@ static ld ref(const Basic &b, RefEnv &env)
                 r = x > 0 ? t : PI_L - t;
             }
             break;
-        case SYMENGINE_ACOT: // atan(1/x) = sign(x) pi/2 - atan(x); discontinuous at 0 (and +-0 differ)
+        case SYMENGINE_ACOT: // atan(1/x) = atan2(sign(x), |x|); discontinuous at 0 (and +-0 differ)
             if (x == 0) {
                 env.bad = true;
                 return 0;
             }
-            r = (x > 0 ? PI_L / 2 : -PI_L / 2) - atanl(x);
+            r = atan2l(x < 0 ? -1.0L : 1.0L, fabsl(x));
             break;
         case SYMENGINE_SINH: r = sinhl(x); break;
         case SYMENGINE_COSH: r = coshl(x); break;
@@ -293,8 +294,16 @@ static ld ref(const Basic &b, RefEnv &env)
         }
         case SYMENGINE_LOG: r = logl(x); break;
         case SYMENGINE_ABS: r = fabsl(x); break;
-        case SYMENGINE_GAMMA: r = tgammal(x); env.gammas++; break;
-        case SYMENGINE_LOGGAMMA: r = lgammal(x); env.gammas++; break;
+        case SYMENGINE_GAMMA:
+        case SYMENGINE_LOGGAMMA:
+            // poles at the non-positive integers: a rounded argument can sit on one; only x > 0 is tested
+            if (!(x > 0)) {
+                env.bad = true;
+                return 0;
+            }
+            r = (b.get_type_code() == SYMENGINE_GAMMA) ? tgammal(x) : lgammal(x);
+            env.gammas++;
+            break;
         case SYMENGINE_ERF: r = erfl(x); break;
         case SYMENGINE_ERFC: r = erfcl(x); break;
         case SYMENGINE_ATAN2: r = atan2l(a[0], a[1]); break;
@@ -475,12 +484,16 @@ static void run_expr(const std::string &rec, int wfd)
     }
     if (vok && lok && !close_ulps(v, l, 64))
         oracle += " lambda-far-from-eval";
-    if (vok && cok && std::isfinite(v)
-        && !(close_ulps(v, c.real(), 64) && std::fabs(c.imag()) <= 1e-13 * std::max(1.0, std::fabs(v))))
-        oracle += " complex-differs";
     if (vok) {
         bool checked;
-        std::string a = accuracy(*e, nullptr, nullptr, v, &checked);
+        ld tol = 0;
+        std::string a = accuracy(*e, nullptr, nullptr, v, &checked, &tol);
+        // the complex evaluator uses other algorithms (complex pow = exp(y log x) ...): a sanity check
+        // against gross formula errors only
+        if (cok && checked && std::isfinite(v)
+            && !(fabsl((ld)c.real() - (ld)v) <= 1e-9L * fabsl((ld)v) + 1024.0L * tol
+                 && std::fabs(c.imag()) <= 1e-9 * std::max(1.0, std::fabs(v))))
+            oracle += " complex-differs";
         o << (checked ? "\tA=1" : "\tA=0");
         if (!a.empty())
             oracle += " inaccurate(" + a + ")";
@@ -662,8 +675,22 @@ static std::string run_history(const std::string &line, int wfd)
                             else if (checked[i])
                                 same = fabsl((ld)outs[i] - (ld)o2[i]) <= 2 * tols[i];
                         }
-                        if (!same)
-                            orc += " cse(" + std::string(last.cse ? "on " : "off ") + r + " vs " + r2 + ")";
+                        if (!same) {
+                            // does a replacement symbol of cse() have the name of an input symbol?
+                            bool shadow = false;
+                            try {
+                                vec_pair reps;
+                                vec_basic red;
+                                SymEngine::cse(reps, red, last.outs);
+                                for (auto &rp : reps)
+                                    for (auto &in : last.ins)
+                                        if (eq(*rp.first, *in))
+                                            shadow = true;
+                            } catch (...) {
+                            }
+                            orc += std::string(shadow ? " cse-shadow(" : " cse(") + std::string(last.cse ? "on " : "off ") + r
+                                   + " vs " + r2 + ")";
+                        }
                     }
                     return orc;
                 }();
